@@ -329,6 +329,10 @@ pub fn execute(program: &Program, mode: &mut Mode, budget_mult: usize) -> Result
                         out.push((Message::Response(Response { id: (*id as i32).into(), result: Some(Value::Null), error: None }), "stray-response".into()));
                     }
                     Step::Exit => {
+                        // the orderly sequence, sent back to back: shutdown (a request, answered by a worker) and exit
+                        let rid: RequestId = (request_id_of(idx) as i32).into();
+                        step_req.insert(idx, rid.clone());
+                        out.push((Message::Request(Request { id: rid, method: "shutdown".into(), params: Value::Null }), "exit-in-flight".into()));
                         out.push((Message::Notification(Notification { method: "exit".into(), params: Value::Null }), String::new()));
                         tr.exited = true;
                     }
@@ -471,6 +475,27 @@ pub fn execute(program: &Program, mode: &mut Mode, budget_mult: usize) -> Result
         }
     }
     if !tr.crashed && !tr.exited {
+        // orderly end: shutdown is answered, then exit
+        seq += 1;
+        let m = Message::Request(Request { id: 999_999.into(), method: "shutdown".into(), params: Value::Null });
+        sys.send(m.clone());
+        tr.sent.push(Sent { msg: m, step: usize::MAX - 1, seq, p: tr.notifications_sent, fault: "final-shutdown".into() });
+        let mut seqm = Mode::Sequential;
+        loop {
+            let v = sys.view(false);
+            match seqm.choose(&v)? {
+                Some(Choice::Run { t }) => {
+                    sys.run_thread(t);
+                }
+                _ => break,
+            }
+            steps += 1;
+            if steps > budget * 4 {
+                let _ = sys.finish();
+                return Err(SchedError::Budget(tr.choices.clone()));
+            }
+        }
+        drain!();
         seq += 1;
         let m = Message::Notification(Notification { method: "exit".into(), params: Value::Null });
         sys.send(m.clone());
